@@ -27,6 +27,9 @@ TRUSTED = [
 
 def case(runner, r, base, i, profile, rich_ok, malformed, oc, ereqs, epend, sreqs, spend, wreqs):
     model = genlib.rand_sm_model(r)
+    if r.random() < 0.3:
+        model = engtpl.with_eventless_rows(r, model)
+        oc.stat("tables_with_rows_without_event")
     tpl = engtpl.rand_template(r, profile, rich_ok=rich_ok)
     if not malformed:
         for f in tpl:
